@@ -91,7 +91,11 @@ def render_cb(prog):
         if k == "B":
             return ("int rg%d_%d = await g%d;" % (fk, fresh(), st[1])) if top else ("await g%d;" % st[1])
         if k == "W":
+            if len(st) > 3:
+                return "%s = await f%d();" % (st[3], st[1])          # r = await child(); (r declared by a "D" statement)
             return ("int w%d_%d = await f%d();" % (fk, st[2], st[1])) if top else ("await f%d();" % st[1])
+        if k == "D":
+            return "int %s = 0;" % st[1]
         if k == "V":
             return 'println("V", %s, %d, %d);' % (st[1], st[2], st[3])
         if k == "Z":
@@ -104,7 +108,7 @@ def render_cb(prog):
             lastmark[0] = fresh()
             return "long t0_%d = now();" % lastmark[0]
         if k == "E":
-            return 'println("P", now() - t0_%d);' % lastmark[0]
+            return 'println(now() - t0_%d);' % lastmark[0]     # the argument is evaluated (clock line) before anything is printed
         if k == "U":
             return "run_event_loop();"
         raise ValueError(st)
@@ -168,6 +172,8 @@ def tok(st):
         return "T%d:%d:%d" % (st[1], st[2], st[3])
     if k in ("M", "E", "U", "Y", "R"):
         return k
+    if k == "D":
+        return "C"             # a declaration: a statement that asks nothing of the scheduler
     if k == "L":
         return "L%d( %s )" % (st[1], " ".join(tok(x) for x in st[2]))
     raise ValueError(st)
@@ -223,6 +229,14 @@ class Gen:
                 out.append(["P", self.t(fk)])
             elif r < 0.30 and not is_main and susp < 4:
                 out.append(["Y"]); susp += 1
+            elif r < 0.34 and susp < 4 and callees and not is_main:
+                # for (...) { r = await child(); println(..); }  - the child ends with `return`
+                var = "lw%d_%d" % (fk, self.t(fk))
+                n = rng.randint(2, 3)
+                bodyl = [["W", rng.choice(callees), 0, var], ["P", self.t(fk)]]
+                if rng.random() < 0.4:
+                    bodyl.reverse()
+                out.append(["D", var]); out.append(["L", n, bodyl]); susp += n
             elif r < 0.38 and susp < 4:
                 n = rng.randint(0, 3)
                 out.append(["L", n, [self.loop_simple(fk) for _ in range(rng.randint(1, 2))]]); susp += n
@@ -271,6 +285,25 @@ class Gen:
 
     def program(self):
         return {"step": self.rng.choice(CLOCK_STEPS), "funs": [self.body(k) for k in range(self.n + 1)]}
+
+
+def loop_await_programs():
+    """async task with `for (..) { r = await child(); println(..); }` while another looping task is
+    runnable; the children finish via `return` from inside the outer task's turn."""
+    for n1 in (2, 3):
+        for order in (0, 1):
+            for child in ([["R"]], [["P", 3001], ["R"]], [["Y"], ["R"]], [["P", 3001], ["Y"], ["P", 3002], ["R"]]):
+                for n2 in (1, 3):
+                    for mk in range(3):
+                        b1 = [["W", 3, 0, "lw1"], ["P", 1001]]
+                        if order:
+                            b1.reverse()
+                        f1 = [["D", "lw1"], ["L", n1, b1], ["P", 1002], ["R"]]
+                        f2 = [["L", n2, [["P", 2001]]], ["P", 2002], ["R"]]
+                        main = [[["S", 1, 0], ["S", 2, 1], ["A", 0, 0], ["A", 1, 0]],
+                                [["S", 2, 1], ["S", 1, 0], ["P", 1], ["P", 2], ["A", 0, 0]],
+                                [["S", 1, 0], ["S", 2, 1]] + [["P", k] for k in range(1, 9)]][mk]
+                        yield {"step": 5, "funs": [main, f1, f2, json.loads(json.dumps(child))]}
 
 
 def exhaustive_programs(natoms, ntasks):
@@ -331,6 +364,7 @@ def run_impl(impl_dir, prog, timeout=10, clock=True, max_chars=None):
 
 
 _V = re.compile(r"^V (-?\d+) (-?\d+) (\d+)$")
+_NUM = re.compile(r"^-?\d+$")
 
 
 def normalise(lines):
@@ -341,6 +375,8 @@ def normalise(lines):
         if m:
             vals.append((int(m.group(1)), int(m.group(2))))
             out.append("P " + m.group(3))
+        elif _NUM.match(l):
+            out.append("P " + l)          # the elapsed-time print of an E statement
         else:
             out.append(l)
     return out, vals
@@ -385,28 +421,111 @@ def split_model(mlines):
 
 
 # ------------------------------------------------------------------------------ the property's own oracle
-def oracle(lines, vals, flags, step=None):
-    """Evaluate the property's own reading on an implementation trace. Returns list of failures."""
+def loop_markers(prog):
+    """tag -> (function, statement index) for the first line a loop in a task body prints per iteration."""
+    mk = {}
+    for fk, body in enumerate(prog["funs"]):
+        if fk == 0:
+            continue
+        for i, st in enumerate(body):
+            if st[0] == "L":
+                for x in st[2]:
+                    if x[0] == "P":
+                        mk[x[1]] = (fk, i); break
+                    if x[0] == "C" and x[1]:
+                        mk[x[1][0]] = (fk, i); break
+    return mk
+
+
+def oracle(lines, vals, flags, prog=None):
+    """The property's own reading, evaluated on the IMPLEMENTATION's trace (never on the model's):
+      * turns are served in the order ids were pushed (FIFO), the skip branch is never taken, a finished
+        task gets no turn, a task is blocked only on an unfinished task;
+      * "every other runnable task gets exactly one turn before it runs again, no task is overtaken
+        twice": between the moment a task is queued and its next turn every task queued in front of it
+        gets exactly one turn and nobody gets two;
+      * "whenever a task suspends at a loop-iteration boundary": a task runs at most one iteration of a
+        loop per turn and ends that turn with `yield .. loop=1` + exactly one requeue (iterations are
+        recognised by the first line the loop body prints; `prog` is the generated program);
+      * sleep: `woke` only at now >= wake; the clock never runs backwards;
+      * await: the value an await yields is the awaited task's result.
+    Returns the list of failures (empty = the reading holds on this run)."""
     bad = []
     pushes, turns = [], []
     done = set()
     last_clock = None
+    queue = []                 # the ready queue as the trace itself implies it
+    since = {}                 # queued task -> {other task: turns since it was queued}
+    markers = loop_markers(prog) if prog else {}
+    spans = []                 # open turns: [task, {marker tag: count}, yielded_loop, turns of others since first marker]
+
+    def push(x):
+        since[x] = {}
+        queue.append(x)
+
     for l in lines:
         w = l.split()
+        if len(w) >= 2 and w[0] == "P" and markers:
+            try:
+                tag = int(w[1])
+            except ValueError:
+                continue
+            if tag in markers and spans:
+                sp = spans[-1]
+                if sp[1].get(tag):
+                    fk, i = markers[tag]
+                    others = sp[3]
+                    worst = max([others.count(o) for o in set(others)] or [0])
+                    bad.append("task %s ran two iterations of its loop (statement %d of f%d) inside one turn: it did not give up its "
+                               "turn at the loop-iteration boundary; %d turns of other tasks were served meanwhile (up to %d for one task)"
+                               % (sp[0], i, fk, len(others), worst))
+                sp[1][tag] = sp[1].get(tag, 0) + 1
+                sp[3] = []
+            continue
         if len(w) < 3 or w[0] != "CBV":
             continue
         ev = w[1]
         if ev == "spawn" or ev == "requeue":
             pushes.append(w[2])
+        if ev == "spawn":
+            push(w[2])
         elif ev == "skip":
             pushes.append(w[2])
             bad.append("skip branch taken for task %s (a task was queued while executing)" % w[2])
         elif ev == "turn":
-            turns.append(w[2])
-            if w[2] in done:
-                bad.append("finished task %s gets a turn" % w[2])
-        elif ev == "complete":
-            done.add(w[2])
+            x = w[2]
+            turns.append(x)
+            if x in done:
+                bad.append("finished task %s gets a turn" % x)
+            for sp in spans:
+                sp[3].append(x)
+            # no task overtaken twice / everybody in front exactly once
+            for q in queue:
+                if q != x:
+                    since[q][x] = since[q].get(x, 0) + 1
+                    if since[q][x] == 2:
+                        bad.append("task %s gets a second turn while task %s is still waiting in the queue for its turn "
+                                   "(overtaken twice)" % (x, q))
+            if x in queue:
+                if queue[0] != x:
+                    bad.append("task %s gets its turn before task %s that was queued in front of it" % (x, queue[0]))
+                queue.remove(x)
+            spans.append([x, {}, False, []])
+        elif ev == "yield":
+            if spans and spans[-1][0] == w[2] and w[3] == "loop=1":
+                spans[-1][2] = True
+        elif ev in ("requeue", "complete"):
+            if spans and spans[-1][0] == w[2]:
+                sp = spans.pop()
+                if sp[1] and not sp[2] and ev == "requeue":
+                    tag = next(iter(sp[1]))
+                    fk, i = markers[tag]
+                    bad.append("task %s finished an iteration of its loop (statement %d of f%d) but its turn did not end with a "
+                               "loop-boundary yield" % (sp[0], i, fk))
+            if ev == "requeue":
+                push(w[2])
+            else:
+                done.add(w[2])
         elif ev == "clock":
             t = int(w[2])
             if last_clock is not None and t < last_clock:
@@ -427,7 +546,11 @@ def oracle(lines, vals, flags, step=None):
         for got, exp in vals:
             if got != exp:
                 bad.append("await returned %d, the awaited task returns %d" % (got, exp))
-    return bad
+    seen, out = set(), []
+    for b in bad:
+        if b not in seen:
+            seen.add(b); out.append(b)
+    return out
 
 
 # ------------------------------------------------------------------------------ shrinking
@@ -481,9 +604,13 @@ def valid(prog):
                 marked = True
             elif k == "E" and not marked:
                 return False
+            elif k == "D":
+                vars_.add(st[1])
             elif k == "L":
                 for x in st[2]:
                     if x[0] in ("S", "z", "T", "M", "E", "V", "A", "B"):
+                        return False
+                    if x[0] == "W" and len(x) > 3 and x[3] not in vars_:
                         return False
         for st in walk(body):
             if st[0] in ("S", "F", "W", "G") and not (fk < st[1] < len(prog["funs"])):
@@ -550,7 +677,7 @@ def report_disagreement(rep, prog, impl_dir, origin):
         return m != il
     small = shrink(prog, still_bad)
     (p, m, fl, il, vals, rc), = compare_batch([small], impl_dir)
-    fails = oracle(il, vals, fl)
+    fails = oracle(il, vals, fl, small)
     k = next((i for i in range(min(len(m), len(il))) if m[i] != il[i]), min(len(m), len(il)))
     text = "scheduler trace differs from the proved model at line %d (model %r, implementation %r)" % (
         k + 1, m[k] if k < len(m) else "<end>", il[k] if k < len(il) else "<end>")
@@ -668,6 +795,8 @@ def run(rep):
         for natoms, ntasks in exh:
             for p in exhaustive_programs(natoms, ntasks):
                 yield p, "exhaustive"
+        for p in loop_await_programs():
+            yield p, "loop-await"
         seeds = [seed] if tier == "quick" else [seed, seed * 1000003 + 1, seed * 1000003 + 2]
         for sd in seeds:
             for k in range(n_rand):
@@ -712,7 +841,7 @@ def run(rep):
             if m != il:
                 bad.append((p, o))
             else:
-                fails = oracle(il, vals, fl)
+                fails = oracle(il, vals, fl, p)
                 if fails:
                     oracle_fail.append((p, o, fails))
             if o.startswith("random") and len(samples) < 2 and len(m) > 30:
@@ -824,7 +953,7 @@ def replay(path):
         print("first difference at line", k + 1)
         print("model:", m[max(0, k - 5):k + 5])
         print("impl: ", il[max(0, k - 5):k + 5])
-        fails = oracle(il, vals, fl)
+        fails = oracle(il, vals, fl, c["program"])
         print("oracle:", fails)
         return 0 if m == il and not fails else 1
     if "cb" in c:
